@@ -299,6 +299,13 @@ func (mpt *MerklePatriciaTrie) SaveChanges(ctx context.Context, ndb NodeDB, incl
 			zap.Error(err))
 		return err
 	case <-doneC:
+		// the writer may have failed and finished before this select was reached:
+		// then both cases are ready and select picks either one, so look again
+		select {
+		case err := <-errC:
+			return err
+		default:
+		}
 	}
 	return nil
 }
